@@ -3,6 +3,33 @@ use bnum_verif_harness::*;
 
 macro_rules! cnt { ($op:expr, $x:ident, $($name:ident),*) => { match $op { $( stringify!($name) => return Some(Dec($x(0).$name()).out()), )* _ => {} } } }
 
+/// and/or/xor through the inherent const method AND every operator form (value/reference operands, op-assign
+/// with a value and with a reference); `not` likewise.  A disagreement between the forms is answered as such.
+macro_rules! bit_forms {
+    ($op:expr, $x:ident, $(($name:ident, $tr:tt, $asg:tt)),*) => {
+        match $op { $( stringify!($name) => {
+            let (a, b) = ($x(0), $x(1));
+            let r0 = a.$name(b).out();
+            let mut rs = vec![(a $tr b).out(), (&a $tr b).out(), (a $tr &b).out(), (&a $tr &b).out()];
+            let mut c = a; c $asg b; rs.push(c.out());
+            let mut c = a; c $asg &b; rs.push(c.out());
+            for (i, r) in rs.iter().enumerate() { if *r != r0 { return Some(format!("form{}-differs:{}", i, r)); } }
+            return Some(r0)
+        }, )* _ => {} }
+    };
+}
+macro_rules! not_forms {
+    ($op:expr, $x:ident) => {
+        if $op == "not" {
+            let a = $x(0);
+            let r0 = a.not().out();
+            let rs = [(!a).out(), (!&a).out()];
+            for (i, r) in rs.iter().enumerate() { if *r != r0 { return Some(format!("form{}-differs:{}", i, r)); } }
+            return Some(r0);
+        }
+    };
+}
+
 macro_rules! imp {
     ($U:ident, $I:ident, $D:ty, $N:literal) => {{
         type UT = bnum::$U<$N>;
@@ -12,8 +39,9 @@ macro_rules! imp {
             let s = |i: usize| IT::from_hex(a[i]);
             let k = |i: usize| parse_u32(a[i]);
             if !signed {
-                bin_ops!(op, u, u, bitand, bitor, bitxor);
-                un_ops!(op, u, not, swap_bytes, reverse_bits, is_power_of_two, checked_next_power_of_two,
+                bit_forms!(op, u, (bitand, &, &=), (bitor, |, |=), (bitxor, ^, ^=));
+                not_forms!(op, u);
+                un_ops!(op, u, swap_bytes, reverse_bits, is_power_of_two, checked_next_power_of_two,
                     wrapping_next_power_of_two, is_zero, is_one);
                 un_ops_mode!(op, a, u, next_power_of_two);
                 cnt!(op, u, count_ones, count_zeros, leading_zeros, trailing_zeros, leading_ones, trailing_ones, bits);
@@ -24,8 +52,9 @@ macro_rules! imp {
                     _ => {}
                 }
             } else {
-                bin_ops!(op, s, s, bitand, bitor, bitxor);
-                un_ops!(op, s, not, swap_bytes, reverse_bits, is_power_of_two, is_zero, is_one);
+                bit_forms!(op, s, (bitand, &, &=), (bitor, |, |=), (bitxor, ^, ^=));
+                not_forms!(op, s);
+                un_ops!(op, s, swap_bytes, reverse_bits, is_power_of_two, is_zero, is_one);
                 cnt!(op, s, count_ones, count_zeros, leading_zeros, trailing_zeros, leading_ones, trailing_ones, bits);
                 match op {
                     "bit" => return Some(s(0).bit(k(1)).out()),
